@@ -3,6 +3,7 @@ package main
 // Translation of contract expressions to SMT terms.
 
 import (
+	"os"
 	"fmt"
 	"go/ast"
 	"go/constant"
@@ -1055,6 +1056,20 @@ func (cx *evalCtx) call(x *ast.CallExpr) (TV, error) {
 				return TV{}, err
 			}
 			return TV{eq(app("i_tag", v.S), num(int64(r.eng.typeID(t)))), SBool, types.Typ[types.Bool]}, nil
+		case "kcat", "kdrop", "pend", "hasSucc":
+			// the key theory of the engine (bytes: key mode): concatenation, suffix, prefix successor
+			as, err := cx.args(x.Args)
+			if err != nil {
+				return TV{}, err
+			}
+			var ss []string
+			for _, a := range as {
+				ss = append(ss, a.S)
+			}
+			if id.Name == "hasSucc" {
+				return TV{app("hasSucc", ss...), SBool, types.Typ[types.Bool]}, nil
+			}
+			return TV{app(id.Name, ss...), SInt, types.NewSlice(types.Typ[types.Uint8])}, nil
 		case "bytesEq":
 			as, err := cx.args(x.Args)
 			if err != nil {
@@ -1108,7 +1123,13 @@ func (cx *evalCtx) call(x *ast.CallExpr) (TV, error) {
 			a.T = nil
 			return a, nil
 		}
-		if sf := r.eng.specs.SpecFuncs[id.Name]; sf != nil {
+		sf := r.eng.specs.SpecFuncs[id.Name]
+		if cx.pkg != nil {
+			if own := r.eng.specs.SpecFuncs[cx.pkg.Path()+"."+id.Name]; own != nil {
+				sf = own
+			}
+		}
+		if sf != nil {
 			as, err := cx.args(x.Args)
 			if err != nil {
 				return TV{}, err
@@ -1153,7 +1174,7 @@ func (cx *evalCtx) call(x *ast.CallExpr) (TV, error) {
 					if tv, ok, err := cx.nativePure(p.Path()+"."+sel.Sel.Name, as); ok {
 						return tv, err
 					}
-					if sf := r.eng.specs.SpecFuncs[sel.Sel.Name]; sf != nil && sf.Pkg == p.Path() {
+					if sf := r.eng.specs.SpecFuncs[p.Path()+"."+sel.Sel.Name]; sf != nil {
 						return cx.specCall(sf, as)
 					}
 					if o, ok := p.Scope().Lookup(sel.Sel.Name).(*types.Func); ok {
@@ -1269,6 +1290,23 @@ func (cx *evalCtx) specCall(sf *SpecFunc, args []TV) (TV, error) {
 				ss = append(ss, r.eng.sorts.sortOf(t))
 			}
 			r.emit(fmt.Sprintf("(declare-fun %s (%s) %s)", name, strings.Join(ss, " "), r.eng.sorts.sortOf(rt)))
+			// the result is a value of its declared type (abstract keys and unsigned integers are not negative, ...)
+			if len(ss) > 0 {
+				var decl, vars []string
+				for i, so := range ss {
+					decl = append(decl, fmt.Sprintf("(a%d %s)", i, so))
+					vars = append(vars, fmt.Sprintf("a%d", i))
+				}
+				call := app(name, vars...)
+				if inv := r.typeInvRefOnly(call, rt, &State{frontier: "0"}); inv != "true" && !strings.Contains(inv, " 0)") || isKeyLike(r, rt) {
+					if isKeyLike(r, rt) {
+						r.emit(fmt.Sprintf("(assert (forall (%s) (! (>= %s 0) :pattern (%s)))) ;bg", strings.Join(decl, " "), call, call))
+					}
+				}
+				if lo, hi, ok := intRange(rt); ok {
+					r.emit(fmt.Sprintf("(assert (forall (%s) (! (and (<= %s %s) (<= %s %s)) :pattern (%s)))) ;bg", strings.Join(decl, " "), bigNum(lo), call, call, bigNum(hi), call))
+				}
+			}
 		}
 		var as []string
 		for _, a := range args {
@@ -1332,7 +1370,22 @@ func (cx *evalCtx) specCall(sf *SpecFunc, args []TV) (TV, error) {
 		}
 		n.binds[p.Name] = a
 	}
-	// bound (quantified) variables stay visible through the bind map of the caller
+	// a parameter of the spec function hides a quantified variable of the same name at the call site
+	if len(n.bound) > 0 {
+		nb := map[string]TV{}
+		for k, v := range n.bound {
+			nb[k] = v
+		}
+		for _, p := range sf.Params {
+			delete(nb, p.Name)
+		}
+		n.bound = nb
+	}
+	if os.Getenv("GOCV_DEBUG_SPEC") != "" {
+		for i, p := range sf.Params {
+			fmt.Fprintf(os.Stderr, "[speccall] %s param %s = %s\n", sf.Name, p.Name, args[i].S)
+		}
+	}
 	res, err := n.expr(sf.Body)
 	if err != nil {
 		return TV{}, fmt.Errorf("in spec func %s: %v", sf.Name, err)
@@ -1353,6 +1406,19 @@ func (cx *evalCtx) pureCall(fn *ssa.Function, args []TV) (TV, error) {
 	}
 	if sp := r.eng.specs.Funcs[fn.String()]; sp != nil && (sp.Pure || sp.Trusted) && len(fn.Blocks) == 0 || (sp != nil && sp.Pure && !sp.Inline) {
 		return cx.pureByContract(fn, sp, args)
+	}
+	// library functions with a built-in model (bytes.Compare, bytes.HasPrefix, ... in key mode)
+	if cx.fr != nil && fn.Signature.Results().Len() == 1 {
+		vals := make([]Val, len(args))
+		for i, a := range args {
+			vals[i] = a
+		}
+		switch fn.String() {
+		case "bytes.HasPrefix", "bytes.Equal", "bytes.Compare", "github.com/tikv/client-go/v2/kv.CmpKey", "github.com/tikv/client-go/v2/kv.NextKey":
+			if res, ok := cx.fr.nativeCallVals(cx.st, fn, vals, fn.Signature); ok {
+				return r.toTV(cx.st, res, fn.Signature.Results().At(0).Type()), nil
+			}
+		}
 	}
 	if len(fn.Blocks) == 0 {
 		return TV{}, fmt.Errorf("function %s has no body and no pure contract", fn.String())
@@ -1489,4 +1555,15 @@ func (fr *Frame) evalClause(st *State, c *Clause, rec *loopRec) (string, error) 
 func (fr *Frame) evalTerm(st *State, c *Clause, rec *loopRec) (TV, error) {
 	cx := fr.newCtx(st, rec, true)
 	return cx.expr(c.Expr)
+}
+
+// isKeyLike: a byte string represented as an abstract key (non-negative Int) in the current mode.
+func isKeyLike(r *Run, t types.Type) bool {
+	if r.eng.sorts.keyMode && isByteSlice(t) {
+		return true
+	}
+	if b, ok := t.Underlying().(*types.Basic); ok && b.Info()&types.IsString != 0 {
+		return true
+	}
+	return false
 }
